@@ -68,3 +68,15 @@ void h_evaluate_module(void) {
     V_COVER("eval-not-idle", vin_state == M_MOD_PAUSED); V_COVER("eval-deregistered", r == -ENOENT);
     V_CANARY();
 }
+
+#define SETTER_HARNESS(name, fn) \
+void h_##name(void) { \
+    build_mod(); \
+    int r = fn(vin_null_mod ? NULL : g_mod); \
+    V_COVER(#name "-ok", r == 0); V_COVER(#name "-wrong-state", r == -EACCES && vin_state != M_MOD_ZOMBIE && !vin_null_mod); V_COVER(#name "-zombie", r == -EACCES && vin_state == M_MOD_ZOMBIE); \
+    V_COVER(#name "-foreign", r == -EPERM); V_COVER(#name "-no-token", r == -EAGAIN); V_COVER(#name "-null", r == -EINVAL); V_COVER(#name "-reentrant", r == 0 && vin_has_curr); \
+    V_CANARY(); }
+SETTER_HARNESS(m_start, m_mod_start)
+SETTER_HARNESS(m_pause, m_mod_pause)
+SETTER_HARNESS(m_resume, m_mod_resume)
+SETTER_HARNESS(m_stop, m_mod_stop)
